@@ -547,6 +547,8 @@ func (f *Frame) applyContract(con *Contract, key string, sig *types.Signature, a
 	vc := f.vc
 	if con.NoBody {
 		vc.used["ASSUMED-CONTRACT:"+con.Key] = true
+	} else {
+		vc.used["USES-CONTRACT:"+con.Key] = true
 	}
 	pre := f.cur.clone()
 	env := f.calleeEnv(con, sig, args, f.cur, nil, nil)
